@@ -1,6 +1,7 @@
 /-
 Driver commands for the graph family (C04 / C21):
   gr.grid <numblocks>                     block-index grid in `__dask_keys__` order
+  gr.istopo <deps per key> <order>        is `order` a topological order of the graph skeleton
   gr.materialize <renamed> <inner> <nb>   tail of `_materialize` (RootAlias pin / embedded-root guard)
   gr.flatten <key> <node>                 `_records(key, node)` of dask_array/_frisky/graph_records.py
 
@@ -127,6 +128,11 @@ def handle (cmd : String) (args : List String) : Option String :=
     let nb ← parseNatList? nb
     let g := grid nb
     pure ("ok " ++ (if g.isEmpty then "-" else ";".intercalate (g.map fmtIdx)))
+  | "gr.istopo", [deps, order] => do
+    let deps ← parseNatLL? deps
+    let order ← parseNatList? order
+    let sk := (List.range deps.length).zip deps
+    pure (if isTopoB sk order then "ok 1" else "ok 0")
   | "gr.materialize", [renamed, inner, nb] => do
     let nb ← parseNatList? nb
     let (pre, root) := matNodes (inner = "1") nb
